@@ -388,6 +388,15 @@ class C04:
             for cs in it["cuts"][:3]:
                 g.add("cut", gen.resp_op(tree, ov, hl, gen.cut(s, cs)))
             groups.append(g)
+        for j, it in enumerate(extremes.status_sweep(tier, rng)):
+            g = Group("S%d" % j, "resp-accept-status", {"stream": it["stream"].hex(), "hl": None, "what": it["label"], "framing": it["framing"]})
+            g.add("whole", gen.resp_op(tree, ov, None, [it["stream"]]))
+            groups.append(g)
+        for j, it in enumerate(extremes.byte_sweep()):
+            if it["kind"] == "resp":
+                g = Group("B%d" % j, "resp-accept-bytes", {"stream": it["stream"].hex(), "hl": None, "what": "%s field %r" % (it["pos"], it["field"])})
+                g.add("whole", gen.resp_op(tree, ov, None, [it["stream"]]))
+                groups.append(g)
         alpha = [b"HTTP/1.1", b" ", b"2", b"0", b"999", b"1000", b"\r", b"\n", b"\xc3", b"+", b"x"]
         for j, w in enumerate(small_strings(alpha, n_for(tier, 4, 5))):
             s = w + b"\r\n\r\n"
@@ -495,7 +504,21 @@ class C05:
                 rng.shuffle(sch)
                 for ds in sch[:5]:
                     g.add("cut", gen.resp_op(tree, ov, None, ds))
+            if rng.chance(1, 8):
+                # "no byte outside the declared chunk-data ranges ever reaches the body": not even bytes the caller
+                # left in the public `body` field of the Response it hands to the parser
+                junk = rng.pick([b"placeholder", b"x", b"0\r\n\r\n", gen.rand_bytes(rng, rng.randint(1, 30))])
+                g.add("preset-body", "RESPPRE %d %d - %s %s" % (tree, ov, hx(junk), gen.dfield([s])))
+                g.add("preset-body", "RESPPRE %d %d - %s %s" % (tree, ov, hx(junk), gen.dfield(gen.cut(s, [len(pre) + 1, max(len(pre) + 2, len(s) - 3)]))))
             groups.append(g)
+        for j, it in enumerate(extremes.byte_sweep()):
+            if it["pos"] == "chunk":
+                s = it["stream"]
+                off = s.index(b"\r\n\r\n") + 4
+                meta = {"stream": s.hex(), "off": off, "valid": False, "payload": "", "trailers": [], "enc_len": 0, "pre": s[:off].hex()}
+                g = Group("B%d" % j, "chunked-byte-sweep", meta)
+                g.add("whole", gen.resp_op(tree, ov, None, [s]))
+                groups.append(g)
         alpha = [b"0", b"1", b"a", b"F", b"\r", b"\n", b"\r\n", b";", b"+", b" ", b"x", b":"]
         pre = CHUNK_PREFIXES[0]
         for j, w in enumerate(small_strings(alpha, n_for(tier, 4, 5))):
@@ -804,6 +827,13 @@ class C09:
                     if rng.chance(1, 3):
                         g.add("suffix-cut", gen.resp_op(tree, ov, None, gen.cut(m + sfx, [len(m), rng.randint(1, len(m))])), {"sfx": sfx.hex()})
             groups.append(g)
+        # every status code under every framing, with bytes following the message
+        for k, it in enumerate(extremes.status_sweep(tier, rng)):
+            m, sfx = it["stream"][:it["msg_len"]], it["stream"][it["msg_len"]:]
+            g = Group("sc%d" % k, "resp-suffix", {"msg": m.hex(), "kind": "resp", "framing": it["framing"], "what": it["label"]})
+            g.add("alone", gen.resp_op(tree, ov, None, [m]))
+            g.add("suffix", gen.resp_op(tree, ov, None, [m + sfx]), {"sfx": sfx.hex()})
+            groups.append(g)
         # limits exactly at the message: bytes after the message must not be charged to it
         for k in range(n // 3):
             m = build_valid_request(rng)
@@ -898,6 +928,11 @@ class C09:
                     x = r.field_bytes("x")
                     if x and not sfx.startswith(x):
                         fails.append(Failure(group, "suffix", "trailing data is not a prefix of the appended bytes", [i]))
+                    elif group.meta.get("framing") in ("none", "chunked") and (x or r.total != len(m)):
+                        # only a declared-length body lets the parser set the rest of the delivery aside; a chunked or
+                        # body-less message ends where it ends, so that the caller finds the next message at that offset
+                        fails.append(Failure(group, "suffix", "%d bytes beyond a %s message are consumed (the next message is not found at the offset reported)" % (
+                            r.total - len(m), "chunked" if group.meta["framing"] == "chunked" else "body-less"), [i]))
         else:
             for i in range(0, len(group.members), 2):
                 a = ParseResult(res[group.tag(i)])
@@ -998,6 +1033,11 @@ class C17:
                 g.add("whole", C17.build(pos, w, tree, ov))
                 groups.append(g)
                 k += 1
+        for it in extremes.byte_sweep():
+            g = Group("n%d" % k, "numeric-byte-sweep", {"pos": it["pos"], "field": it["field"].hex()})
+            g.add("whole", gen.resp_op(tree, ov, None, [it["stream"]]) if it["kind"] == "resp" else gen.req_op(tree, ov, (None, None, None), [it["stream"]]))
+            groups.append(g)
+            k += 1
         for _ in range(n_for(tier, 1500, 40000)):
             pos = rng.pick(positions)
             w = one_non_digit(rng, radix16=pos.startswith("chunk")) if rng.chance(3, 4) else rng.pick(gen.NUMERIC_GOOD + gen.NUMERIC_BAD + gen.NUMERIC_HUGE)
@@ -1182,6 +1222,42 @@ class C06:
             ctv = rng.pick([b"text/plain", b"text/plain; charset=utf-8", b"text/x;charset=", b"/", b";", b"text/;=;charset", b"TEXT/a; x=y; CHARSET=Shift_JIS", b"text/a;charset=utf-16le", b"text/a;charset=iso-2022-jp", b"text/a; charset=gb18030", b"text/a; charset=big5", b"text/a; charset=euc-kr", b"text/a; charset=x-user-defined", b"text/a; charset=replacement"])
             add("text-junk", "TEXT %s %s" % (gen.hdrs_field([(b"Content-Type", ctv)]), hx(gen.rand_bytes(rng, rng.below(12)))))
         # text decoding: the structured Content-Type grammar and every short string over its structural alphabet
+        # the limits are public fields: changed between calls (compared with the model, whose `parse` takes the
+        # limits of each call), in particular lowered below what has already been counted
+        def cfgs_field(cs):
+            return ";".join(",".join(gen.opt(x) for x in c) for c in cs)
+        lim_pool = [None, 0, 1, 2, 10, 40, 41, 42, 43, 44, 50, 100, 1000, 10_000_000, 2 ** 64 - 1]
+        for _ in range(n):
+            d = rng.pick([0, 1, 5, 30, 100, 10 ** 7, 2 ** 64 - 1, 2 ** 63])
+            body = gen.rand_bytes(rng, min(d, rng.below(40)), b"abc\r\n")
+            s = rng.pick(gen.GOOD_METHODS[:6]) + b" /x HTTP/1.1\r\n" + rng.pick([b"", b"Host: a\r\n", b"A: b\r\n c\r\n"]) + b"Content-Length: %d\r\n\r\n" % d + body
+            ds = rng.pick(gen.schedules(rng, s, n_random=2))
+            ds = ds[:12]
+            cs = []
+            cur = [rng.pick([None, 1000, 20]), rng.pick([None, 1000, 30]), rng.pick(lim_pool)]
+            for _i in ds:
+                if rng.chance(1, 2):
+                    cur[rng.below(3)] = rng.pick(lim_pool)
+                cs.append(tuple(cur))
+            add("req-limits-changed", "REQV %d %d %s %s" % (tree, ov, cfgs_field(cs), gen.dfield(ds)))
+        # `parse` called again after it returned an error (the documented protocol stops there; implementation only):
+        # whatever state an error leaves behind, the next call must not crash
+        for _ in range(n):
+            if rng.chance(1, 2):
+                s, info = gen.gen_request(rng, good_p=0.5)
+                if rng.chance(1, 2):
+                    s = gen.mutate(rng, s)
+                if rng.chance(1, 3):
+                    s = b"POST / HTTP/1.1\r\nContent-Length: " + rng.pick(huge) + b"\r\n\r\n" + s
+                ds = rng.pick((gen.schedules(rng, s, n_random=2) if len(s) > 2 else []) or [[s]])[:10] + [b"GET / HTTP/1.1\r\n\r\n", b"x"]
+                c = (rng.pick([None, 1000, 5]), rng.pick([None, 1000, 5]), rng.pick([None, 10_000_000, 5, 60, 4096]))
+                add("req-after-error", "REQE %d %d %s %s" % (tree, ov, cfgs_field([c] * len(ds)), gen.dfield(ds)), None).members[0].meta["nocmp"] = True
+            else:
+                s, info = gen.gen_response(rng, good_p=0.5, chunked_p=0.5)
+                if rng.chance(1, 2):
+                    s = gen.mutate(rng, s)
+                ds = rng.pick((gen.schedules(rng, s, n_random=2) if len(s) > 2 else []) or [[s]])[:10] + [b"0\r\n\r\n", b"x"]
+                add("resp-after-error", "RESPE %d %d %s %s" % (tree, ov, rng.pick(["-", "-", "30", "1000"]), gen.dfield(ds)), None).members[0].meta["nocmp"] = True
         from . import props_coding
         for _ in range(n):
             hs, body = props_coding.gen_text_case(rng)
@@ -1254,6 +1330,24 @@ class C07:
                     g.add("bytewise", gen.resp_op(tree, ov, None, [s[i:i + 1] for i in range(len(s))]))
                     groups.append(g)
                     k += 1
+        # a declared length that is refused must not be remembered either: `parse` called again after the error
+        # (implementation only; the documented protocol stops at the error)
+        for d in declared:
+            for mx in (100, 4096, 10_000_000):
+                s = b"POST / HTTP/1.1\r\nContent-Length: %d\r\n\r\n" % d
+                ds = [s, b"ab", b"cd", b"e" * 40]
+                cf = ";".join(["1000,1000,%d" % mx] * len(ds))
+                g = Group("m%d" % k, "req-declared-after-error", {"declared": d, "max": mx, "supplied": 44})
+                g.add("after-error", "REQE %d %d %s %s" % (tree, ov, cf, gen.dfield(ds)), {"nocmp": True})
+                groups.append(g)
+                k += 1
+            s = b"HTTP/1.1 200 OK\r\nTransfer-Encoding: chunked\r\n\r\n%x\r\n" % d
+            ds = [s, b"ab", b"c", b"d", b"e" * 40]
+            g = Group("m%d" % k, "chunk-declared-piecemeal", {"declared": d, "max": None, "supplied": 44})
+            g.add("piecemeal", gen.resp_op(tree, ov, None, ds))
+            g.add("after-error", "RESPE %d %d - %s" % (tree, ov, gen.dfield([s[:-2] + b"x\r\n"] + ds[1:])), {"nocmp": True})
+            groups.append(g)
+            k += 1
         for nchunks in (8, 16, 22, 30, 40, 64, 200):
             for size in (1, 3, 16):
                 body = b"".join(b"%x\r\n" % size + b"x" * size + b"\r\n" for _ in range(nchunks)) + b"0\r\n\r\n"
